@@ -54,10 +54,13 @@ pub struct SrvRef {
     created: std::collections::HashSet<u32>,
     deleted: std::collections::HashSet<u32>,
     req_stream: std::collections::HashMap<u32, u32>,   // request id -> message stream it arrived on
+    /// message stream -> key of the accepted, unfinished publish request that arrived on it (only requests whose
+    /// stream the tracker could read off the wire); `None` after an ambiguity: stop judging missing media events
+    pub_by_sid: Option<std::collections::HashMap<u32, String>>,
 }
 
 impl SrvRef {
-    fn start(&mut self) { if !self.started { self.started = true; self.inp = Some(RefDecoder::new(false)); self.outp = Some(RefDecoder::new(false)); } }
+    fn start(&mut self) { if !self.started { self.started = true; self.inp = Some(RefDecoder::new(false)); self.outp = Some(RefDecoder::new(false)); self.pub_by_sid = Some(Default::default()); } }
     /// stream ids the session announced in createStream results
     fn sync_outputs(&mut self, t: &Track) {
         self.start();
@@ -73,19 +76,44 @@ impl SrvRef {
     }
     /// one `srv.in` op: `data` is everything the peer sent in it, `failed` = a call returned Err,
     /// `new_reqs` = publish / play request ids surfaced, `media` = audio / video / metadata events raised
-    fn on_op(&mut self, t: &Track, data: &[u8], failed: bool, new_reqs: &[u32], media: usize) -> Option<String> {
+    fn on_op(&mut self, t: &Track, data: &[u8], failed: bool, err: &str, new_reqs: &[u32], media: usize) -> Option<String> {
         self.start();
         let connected_before = self.accepted_app.is_some();
         let created_before = self.created.clone();
         self.sync_outputs(t);
-        if failed { self.inp = None; }
         let rd = self.inp.as_mut()?;
         let ms = match rd.decode_all(data) { Ok(m) => m, Err(_) => { self.inp = None; return None; } };
+        if failed {
+            // a call that failed on its only message, at message level, leaves the byte stream in step: keep reading;
+            // anything else (bytes left behind in the session's buffer, a chunk-level error) ends the tracking
+            let msg_level = err.starts_with("err:msgdes") || err == "err:noapp";
+            if !(ms.len() == 1 && rd.idle() && msg_level) { self.inp = None; }
+            return None;
+        }
         let mut verdict = None;
         if ms.len() == 1 {
             let m = &ms[0];
             if (m.typ == 8 || m.typ == 9) && media > 0 && self.deleted.contains(&m.msid) { verdict = Some(format!("media-event-raised-for-a-message-on-deleted-stream-{}", m.msid)); }
+            // the other direction: a stream whose publish request was accepted, in a session whose connection was accepted
+            // and never un-accepted, raises one event per audio / video message
+            if (m.typ == 8 || m.typ == 9) && media == 0 && connected_before && !self.deleted.contains(&m.msid) {
+                if let Some(map) = &self.pub_by_sid { if let Some(k) = map.get(&m.msid) { if self.publishing.contains(k) {
+                    verdict = Some(format!("media-message-on-publishing-stream-{}-raised-no-event", m.msid)); } } }
+            }
             if m.typ == 20 { for r in new_reqs { self.req_stream.insert(*r, m.msid); } }
+            // a well-formed play / publish command in a session whose connection was accepted surfaces exactly one request
+            if m.typ == 20 && connected_before && !failed {
+                if let Ok(vs) = refcodec::decode(&m.data) {
+                    use crate::amftext::V;
+                    let name = match vs.get(0) { Some(V::Str(n)) => n.clone(), _ => vec![] };
+                    let tid_ok = matches!(vs.get(1), Some(V::Number(_)));
+                    let well_formed = tid_ok && vs.len() >= 4 && match name.as_slice() {
+                        b"play" => matches!(vs.get(3), Some(V::Str(_))),
+                        b"publish" => matches!(vs.get(3), Some(V::Str(_))) && match vs.get(4) { Some(V::Str(t)) => { let l = t.to_ascii_lowercase(); l == b"live" || l == b"record" || l == b"append" } _ => false },
+                        _ => false };
+                    if well_formed && new_reqs.len() != 1 { verdict = Some(format!("{}-command-in-an-accepted-connection-surfaced-{}-requests", String::from_utf8_lossy(&name), new_reqs.len())); }
+                }
+            }
         }
         for m in &ms {
             if m.typ != 20 { continue; }
@@ -124,6 +152,10 @@ impl SrvRef {
                     E::PublishStreamFinished { app_name, stream_key } => {
                         if Some(app_name) != self.accepted_app.as_ref() { return Some(format!("finished-event-tagged-with-app-{:?}-accepted-was-{:?}", app_name, self.accepted_app)); }
                         match self.publishing.iter().position(|k| k == stream_key) { Some(i) => { self.publishing.remove(i); } None => return Some(format!("publish-finished-for-key-{:?}-raised-without-or-twice", stream_key)) }
+                        if let Some(map) = self.pub_by_sid.as_mut() {
+                            let sids: Vec<u32> = map.iter().filter(|(_, k)| *k == stream_key).map(|(s, _)| *s).collect();
+                            if sids.len() == 1 { map.remove(&sids[0]); } else if sids.len() > 1 { self.pub_by_sid = None; }
+                        }
                     }
                     E::PlayStreamFinished { app_name, stream_key } => {
                         if Some(app_name) != self.accepted_app.as_ref() { return Some(format!("finished-event-tagged-with-app-{:?}-accepted-was-{:?}", app_name, self.accepted_app)); }
@@ -142,7 +174,13 @@ impl SrvRef {
             Some((kind, app, key)) => {
                 if !ok && !(accept && kind != 0 && err == "err:inactive") { return Some(format!("outstanding-id-{}-refused-with-{}", id, err)); }
                 if accept && ok && kind != 0 { if let Some(sid) = self.req_stream.get(&id) { if self.deleted.contains(sid) { return Some(format!("request-{}-accepted-on-stream-{}-which-was-deleted", id, sid)); } } }
-                if accept && ok { match kind { 0 => self.accepted_app = Some(app), 1 => self.publishing.push(key), _ => self.playing.push(key) } }
+                if accept && ok {
+                    if kind != 0 { match (self.req_stream.get(&id).copied(), self.pub_by_sid.as_mut()) {
+                        (Some(sid), Some(map)) => { if kind == 1 { map.insert(sid, key.clone()); } else { map.remove(&sid); } }
+                        (None, _) => { self.pub_by_sid = None; }    // a request whose stream the tracker did not see: it may have replaced a publishing stream
+                        _ => {} } }
+                    match kind { 0 => self.accepted_app = Some(app), 1 => self.publishing.push(key), _ => self.playing.push(key) }
+                }
                 None
             }
         }
@@ -157,19 +195,60 @@ pub struct CliRef {
     peer: Option<RefDecoder>,
     active: Option<u32>,          // stream of the running play / publish (None after a stop that emitted deleteStream)
     ever_active: bool,
+    judge_txn: bool,              // false after a failed input call (it may or may not have consumed its transaction)
+    /// where the workflow stands, derived only from the results of the session's own calls and the events it raised:
+    /// 0 disconnected, 1 connected, 2 play requested, 3 playing, 4 publish requested, 5 publishing; None = stopped judging
+    phase: Option<u8>,
 }
 
 impl CliRef {
-    fn new() -> Self { CliRef { next_tid: 1, outstanding: Default::default(), peer: Some(RefDecoder::new(false)), active: None, ever_active: false } }
+    fn new() -> Self { CliRef { next_tid: 1, outstanding: Default::default(), peer: Some(RefDecoder::new(false)), active: None, ever_active: false, judge_txn: true, phase: Some(0) } }
     fn on_stop(&mut self, emitted: bool) { if emitted { self.active = None; } }
+    /// `stop_playback` / `stop_publishing` returned: Ok always (it is a no-op outside the matching phases)
+    fn on_stop_phase(&mut self, play: bool, ok: bool) {
+        if !ok { self.phase = None; return; }
+        if let Some(p) = self.phase { if (play && (p == 2 || p == 3)) || (!play && (p == 4 || p == 5)) { self.phase = Some(1); } }
+    }
+    /// kind: 0 connect, 1 createStream for play, 2 createStream for publish
     fn on_request(&mut self, ok: bool, kind: u8) { if ok { self.outstanding.insert(self.next_tid, kind); self.next_tid += 1; } }
+    /// C10: a request call is accepted exactly in the phase the workflow allows it in, and refused with the state error otherwise
+    fn judge_call(&mut self, what: &str, allowed_in: u8, res: &str) -> Option<String> {
+        let p = self.phase?;
+        let ok = !res.starts_with("err:");
+        let state_err = res == "err:state" || res == "err:cantconnect" || res == "err:noactive";
+        if !ok && !state_err { self.phase = None; return None; }   // refused for another reason (size limits, …): not judged
+        if ok && p != allowed_in { return Some(format!("{}-accepted-in-phase-{}", what, p)); }
+        if !ok && p == allowed_in { return Some(format!("{}-refused-with-{}-in-phase-{}", what, res, p)); }
+        None
+    }
     /// one input call that carries exactly one complete command message `_result` / `_error`
     fn on_input(&mut self, data: &[u8], out: &str) -> Option<String> {
         let rd = self.peer.as_mut()?;
-        let ms = match rd.decode_all(data) { Ok(m) => m, Err(_) => { self.peer = None; return None; } };   // desynchronised: stop judging
-        // a call that failed may or may not have consumed the transaction it was answering: stop judging
-        if out.split(' ').any(|t| t.starts_with("err:")) { self.peer = None; return None; }
+        let ms = match rd.decode_all(data) { Ok(m) => m, Err(_) => { self.peer = None; self.phase = None; return None; } };   // desynchronised: stop judging
         let cmds: Vec<&RMsg> = ms.iter().filter(|m| m.typ == 20).collect();
+        let failed = out.split(' ').any(|t| t.starts_with("err:"));
+        // ---- phase: the events the session raised move it forward; a refused status notice leaves it where it was
+        if self.phase.is_some() {
+            let name_of = |m: &RMsg| -> Option<Vec<u8>> { match refcodec::decode(&m.data).ok()?.get(0) { Some(crate::amftext::V::Str(n)) => Some(n.clone()), _ => None } };
+            if failed {
+                let lone_status = ms.len() == 1 && cmds.len() == 1 && name_of(cmds[0]).as_deref() == Some(b"onStatus") && out == "err:state";
+                if !lone_status { self.phase = None; }
+            } else if ms.len() == 1 {
+                let p = self.phase.unwrap();
+                if out.split(' ').any(|t| t == "ev:connok") { if p == 0 { self.phase = Some(1); } else { self.phase = None; } }
+                else if out.split(' ').any(|t| t == "ev:playok") { if p == 2 { self.phase = Some(3); } else { return Some(format!("playback-accepted-raised-in-phase-{}", p)); } }
+                else if out.split(' ').any(|t| t == "ev:pubok") { if p == 4 { self.phase = Some(5); } else { return Some(format!("publish-accepted-raised-in-phase-{}", p)); } }
+                else if cmds.len() == 1 && name_of(cmds[0]).as_deref() == Some(b"_result") && self.judge_txn {
+                    if let Ok(vs) = refcodec::decode(&cmds[0].data) { if let Some(crate::amftext::V::Number(t)) = vs.get(1) {
+                        match self.outstanding.get(&(f64::from_bits(*t) as u32)) { Some(&1) if matches!(vs.get(3), Some(crate::amftext::V::Number(_))) => self.phase = Some(2), Some(&2) if matches!(vs.get(3), Some(crate::amftext::V::Number(_))) => self.phase = Some(4), _ => {} } } }
+                }
+            } else if cmds.iter().any(|m| matches!(name_of(m).as_deref(), Some(b"_result") | Some(b"_error") | Some(b"onStatus"))) {
+                self.phase = None;   // several messages in one call, one of which may move the workflow: not tracked
+            }
+        }
+        // a call that failed may or may not have consumed the transaction it was answering: stop judging transactions
+        if failed { self.judge_txn = false; }
+        if !self.judge_txn { return None; }
         // media gate: one media / data message in the call, and an event for it
         if ms.len() == 1 && (ms[0].typ == 8 || ms[0].typ == 9 || ms[0].typ == 18) && !out.contains("err:") {
             let raised = out.split(' ').any(|t| t.starts_with("ev:audio:") || t.starts_with("ev:video:") || t.starts_with("ev:meta:"));
@@ -178,7 +257,7 @@ impl CliRef {
         if ms.len() != 1 || cmds.len() != 1 { 
             // several messages in one call: the active stream may change in it; stop judging the media gate
             for m in &cmds { if let Ok(vs) = refcodec::decode(&m.data) { if let (Some(crate::amftext::V::Str(n)), Some(crate::amftext::V::Number(t)), Some(crate::amftext::V::Number(id))) = (vs.get(0), vs.get(1), vs.get(3)) {
-                if n == b"_result" && self.outstanding.get(&(f64::from_bits(*t) as u32)) == Some(&1) && !out.contains("err:") { self.active = Some(f64::from_bits(*id) as u32); } } } }
+                if n == b"_result" && matches!(self.outstanding.get(&(f64::from_bits(*t) as u32)), Some(&1) | Some(&2)) && !out.contains("err:") { self.active = Some(f64::from_bits(*id) as u32); } } } }
             // still keep the bookkeeping right for every answer in the call
             for m in cmds { if let Ok(vs) = refcodec::decode(&m.data) { if let (Some(crate::amftext::V::Str(n)), Some(crate::amftext::V::Number(t))) = (vs.get(0), vs.get(1)) { if n == b"_result" || n == b"_error" { self.outstanding.remove(&(f64::from_bits(*t) as u32)); } } } }
             return None;
@@ -189,7 +268,7 @@ impl CliRef {
         if vs.len() < 3 { return None; }
         let kind = self.outstanding.remove(&tid);
         let known = kind.is_some();
-        if name == b"_result" && kind == Some(1) && !out.contains("err:") { if let Some(crate::amftext::V::Number(id)) = vs.get(3) { self.active = Some(f64::from_bits(*id) as u32); self.ever_active = true; } }
+        if name == b"_result" && (kind == Some(1) || kind == Some(2)) && !out.contains("err:") { if let Some(crate::amftext::V::Number(id)) = vs.get(3) { self.active = Some(f64::from_bits(*id) as u32); self.ever_active = true; } }
         let reported_unknown = out.contains("ev:unktxn:");
         if !known && !reported_unknown && !out.contains("err:") { return Some(format!("answer-to-transaction-{}-which-is-not-outstanding-was-not-reported-as-unknown", tid)); }
         // acknowledgements are a function of the call size, not of the message
@@ -326,6 +405,8 @@ pub fn srv_err(e: &ServerSessionError) -> String {
         E::NoAppNameForConnectionRequest => "err:noapp".into(),
         E::InvalidRequestId => "err:requestid".into(),
         E::ActionAttemptedOnInactiveStream { .. } => "err:inactive".into(),
+        #[allow(unreachable_patterns)]
+        _ => "err:other".into(),
     }
 }
 
@@ -342,6 +423,8 @@ pub fn cli_err(e: &ClientSessionError) -> String {
         E::CreateStreamFailed => "err:createfailed".into(),
         E::CreateStreamResponseHadNoStreamNumber => "err:createnonumber".into(),
         E::InvalidOnStatusArguments => "err:onstatus".into(),
+        #[allow(unreachable_patterns)]
+        _ => "err:other".into(),
     }
 }
 
@@ -369,6 +452,8 @@ pub fn show_srv_event(e: &ServerSessionEvent) -> String {
         E::PlayStreamFinished { app_name, stream_key } => format!("ev:playfin:{}:{}", sb(app_name), sb(stream_key)),
         E::AcknowledgementReceived { bytes_received } => format!("ev:ack:{}", bytes_received),
         E::PingResponseReceived { timestamp } => format!("ev:pong:{}", timestamp.value),
+        #[allow(unreachable_patterns)]
+        _ => "ev:other".into(),
     }
 }
 
@@ -387,6 +472,8 @@ pub fn show_cli_event(e: &ClientSessionEvent) -> String {
         E::UnhandleableOnStatusCode { code } => format!("ev:unhstatus:{}", sb(code)),
         E::AcknowledgementReceived { bytes_received } => format!("ev:ack:{}", bytes_received),
         E::PingResponseReceived { timestamp } => format!("ev:pong:{}", timestamp.value),
+        #[allow(unreachable_patterns)]
+        _ => "ev:other".into(),
     }
 }
 
@@ -499,7 +586,8 @@ fn op_inner(st: &mut SessSt, toks: &[&str]) -> Option<String> {
                     record_srv(&mut st.srv_track, &rs); let mut o = show_srv_results(&mut st.srv_out, &rs); if let Some(v) = st.srv_ref.on_events(&rs) { o.push_str(" ORACLE-FAIL:"); o.push_str(&v.replace(' ', "_")); } outs.push(o) } }
             }
             let mut joined = outs.join(" | ");
-            if let Some(v) = st.srv_ref.on_op(&st.srv_track, &data, failed, &new_reqs, media) { joined.push_str(" ORACLE-FAIL:"); joined.push_str(&v.replace(' ', "_")); }
+            let last_err = if failed { outs.last().cloned().unwrap_or_default() } else { String::new() };
+            if let Some(v) = st.srv_ref.on_op(&st.srv_track, &data, failed, &last_err, &new_reqs, media) { joined.push_str(" ORACLE-FAIL:"); joined.push_str(&v.replace(' ', "_")); }
             joined
         }
         ["srv.accept", now, id] => {
@@ -566,24 +654,31 @@ fn op_inner(st: &mut SessSt, toks: &[&str]) -> Option<String> {
             let s = st.cli.as_mut()?; s.verif_set_uptime_ms(Some(now.parse().ok()?));
             let rr = s.request_connection(s_of(parse_bytes(app)?)?);
             st.cli_ref.on_request(rr.is_ok(), 0);
-            match rr { Err(e) => cli_err(&e), Ok(r) => { let rs = [r]; record_cli(&mut st.cli_track, &rs, CLI_DROP.with(|d| d.get())); show_cli_results(&mut st.cli_out, &rs) } }
+            let mut o = match rr { Err(e) => cli_err(&e), Ok(r) => { let rs = [r]; record_cli(&mut st.cli_track, &rs, CLI_DROP.with(|d| d.get())); show_cli_results(&mut st.cli_out, &rs) } };
+            if let Some(v) = st.cli_ref.judge_call("request_connection", 0, &o) { o.push_str(" ORACLE-FAIL:"); o.push_str(&v); }
+            o
         }
         ["cli.play", now, key] => {
             let s = st.cli.as_mut()?; s.verif_set_uptime_ms(Some(now.parse().ok()?));
             let rr = s.request_playback(s_of(parse_bytes(key)?)?);
             st.cli_ref.on_request(rr.is_ok(), 1);
-            match rr { Err(e) => cli_err(&e), Ok(r) => { let rs = [r]; record_cli(&mut st.cli_track, &rs, CLI_DROP.with(|d| d.get())); show_cli_results(&mut st.cli_out, &rs) } }
+            let mut o = match rr { Err(e) => cli_err(&e), Ok(r) => { let rs = [r]; record_cli(&mut st.cli_track, &rs, CLI_DROP.with(|d| d.get())); show_cli_results(&mut st.cli_out, &rs) } };
+            if let Some(v) = st.cli_ref.judge_call("request_playback", 1, &o) { o.push_str(" ORACLE-FAIL:"); o.push_str(&v); }
+            o
         }
         ["cli.publish", now, key, ty] => {
             let s = st.cli.as_mut()?; s.verif_set_uptime_ms(Some(now.parse().ok()?));
             let t = match *ty { "live" => PublishRequestType::Live, "record" => PublishRequestType::Record, "append" => PublishRequestType::Append, _ => return None };
             let rr = s.request_publishing(s_of(parse_bytes(key)?)?, t);
-            st.cli_ref.on_request(rr.is_ok(), 1);
-            match rr { Err(e) => cli_err(&e), Ok(r) => { let rs = [r]; record_cli(&mut st.cli_track, &rs, CLI_DROP.with(|d| d.get())); show_cli_results(&mut st.cli_out, &rs) } }
+            st.cli_ref.on_request(rr.is_ok(), 2);
+            let mut o = match rr { Err(e) => cli_err(&e), Ok(r) => { let rs = [r]; record_cli(&mut st.cli_track, &rs, CLI_DROP.with(|d| d.get())); show_cli_results(&mut st.cli_out, &rs) } };
+            if let Some(v) = st.cli_ref.judge_call("request_publishing", 1, &o) { o.push_str(" ORACLE-FAIL:"); o.push_str(&v); }
+            o
         }
         ["cli.stop", now, what] => {
             let s = st.cli.as_mut()?; s.verif_set_uptime_ms(Some(now.parse().ok()?));
             let r = if *what == "play" { s.stop_playback() } else { s.stop_publishing() };
+            st.cli_ref.on_stop_phase(*what == "play", r.is_ok());
             match r { Err(e) => cli_err(&e), Ok(rs) => { st.cli_ref.on_stop(!rs.is_empty()); record_cli(&mut st.cli_track, &rs, false); show_cli_results(&mut st.cli_out, &rs) } }
         }
         ["cli.ping", now] => {
@@ -592,14 +687,18 @@ fn op_inner(st: &mut SessSt, toks: &[&str]) -> Option<String> {
         }
         ["cli.meta", now, md] => {
             let s = st.cli.as_mut()?; s.verif_set_uptime_ms(Some(now.parse().ok()?));
-            match s.publish_metadata(&parse_meta(md)?) { Err(e) => cli_err(&e), Ok(r) => { let rs = [r]; record_cli(&mut st.cli_track, &rs, CLI_DROP.with(|d| d.get())); show_cli_results(&mut st.cli_out, &rs) } }
+            let mut o = match s.publish_metadata(&parse_meta(md)?) { Err(e) => cli_err(&e), Ok(r) => { let rs = [r]; record_cli(&mut st.cli_track, &rs, CLI_DROP.with(|d| d.get())); show_cli_results(&mut st.cli_out, &rs) } };
+            if let Some(v) = st.cli_ref.judge_call("publish_metadata", 5, &o) { o.push_str(" ORACLE-FAIL:"); o.push_str(&v); }
+            o
         }
         ["cli.media", kind, ts, drop, data] => {
             let s = st.cli.as_mut()?;
             let (ts, data) = (RtmpTimestamp::new(ts.parse().ok()?), Bytes::from(parse_bytes(data)?));
             CLI_DROP.with(|d| d.set(*drop == "1"));
             let r = if *kind == "v" { s.publish_video_data(data, ts, *drop == "1") } else { s.publish_audio_data(data, ts, *drop == "1") };
-            match r { Err(e) => cli_err(&e), Ok(r) => { let rs = [r]; record_cli(&mut st.cli_track, &rs, CLI_DROP.with(|d| d.get())); show_cli_results(&mut st.cli_out, &rs) } }
+            let mut o = match r { Err(e) => cli_err(&e), Ok(r) => { let rs = [r]; record_cli(&mut st.cli_track, &rs, CLI_DROP.with(|d| d.get())); show_cli_results(&mut st.cli_out, &rs) } };
+            if let Some(v) = st.cli_ref.judge_call("publish_media", 5, &o) { o.push_str(" ORACLE-FAIL:"); o.push_str(&v); }
+            o
         }
         // C17: a real session, a window, a list of call sizes (padding = valid chunk bytes that raise nothing): the
         // acknowledgements must be exactly those of the three-line counter, incl. a re-announced window mid-stream
